@@ -2,7 +2,7 @@
 """C20 translator: scan the Rust sources of the repository for random-number-generator
 construction sites and regenerate coq/gen/C20_seeds.v.
 
-usage: c20_seeds2coq.py <repo> <out.v>
+usage: c20_seeds2coq.py <repo> <out.v> [<reach.json>]
 
 What is extracted (non-test code of src/ and algorithms/*/src only):
   * every RNG construction site: `X::seed_from_u64(e)`, `X::from_seed(e)`, `X::from_rng(e)`,
@@ -13,6 +13,16 @@ What is extracted (non-test code of src/ and algorithms/*/src only):
     `params`, `new`, `default`, `lasso`, `ridge`, ... (a parameter-set constructor) or inside
     `fit`/`fit_with`/`transform` (a generator created on the spot) gives the estimator's default;
   * `Option` random states that default to `None` (FastICA) are reported as OptionalNone.
+
+  * `facility_refs`: every REFERENCE, anywhere in the workspace crates (src, tests, examples,
+    benches of the root crate, algorithms/* and datasets), to a facility the determinism claim
+    excludes - the k-means|| initialiser (`KMeansPara` / `k_means_para`), unseeded generators
+    (`thread_rng`, `from_entropy`, `OsRng`, `rand::random`, `Array::random`, clock / pid seeds),
+    FastICA (whose random state is optional), permutation p-values, t-SNE - with file, line,
+    area (Src / Test / Example / Bench; `#[cfg(test)]` items of src count as Test), enclosing
+    type and function, and the condition of the nearest enclosing `if` (the guard under which
+    the reference is reached).  The Coq obligation lists the sites that may refer to them.
+    With a third argument the same table is written as JSON for the harness (targeted search).
 
 The parser is a restricted scanner: comments, string and char literals are blanked, `#[cfg(test)]`
 items and `#[test]` functions are removed by brace matching, then `impl`/`fn` headers are
@@ -214,12 +224,138 @@ def scan_file(path, rel):
     return sites, psites
 
 
+FACILITIES = [
+    ("kmeans_para", re.compile(r"\bKMeansPara\b|\bk_means_para\b")),
+    ("unseeded_rng", re.compile(r"(?:[A-Za-z_][\w:]*\s*::\s*)?from_entropy\s*\(|\bthread_rng\s*\(|\bThreadRng\s*::\s*default\s*\(|\bOsRng\b|\brand\s*::\s*random\b|\bgetrandom\b|::\s*random\s*\(|\bSystemTime\b|\bInstant\s*::\s*now\b|\bprocess\s*::\s*id\b")),
+    ("fastica", re.compile(r"\bFastIca\w*|\blinfa_ica\b|\brandom_state\s*:\s*None\b")),
+    ("p_values", re.compile(r"\bp_values\s*\(|\bpearson_correlation_with_p_value\b")),
+    ("tsne", re.compile(r"\bTSne\w*|\blinfa_tsne\b")),
+]
+
+
+def enclosing_guard(s, pos, lo):
+    """condition text of the innermost `if c { .. pos .. }` (or `!(c)` for its else block) between lo and pos"""
+    best = None
+    for m in re.finditer(r"\bif\b", s[lo:pos]):
+        i = lo + m.end()
+        j, d = i, 0
+        while j < len(s) and not (s[j] == "{" and d == 0):
+            if s[j] in "([":
+                d += 1
+            elif s[j] in ")]":
+                d -= 1
+            elif s[j] == ";":
+                break
+            j += 1
+        if j >= len(s) or s[j] != "{":
+            continue
+        cond = re.sub(r"\s+", " ", s[i:j]).strip()
+        end = match_brace(s, j)
+        if j < pos < end:
+            best = (j, cond)
+        else:
+            me = re.match(r"\s*else\s*\{", s[end:])
+            if me:
+                b2 = end + me.end() - 1
+                if b2 < pos < match_brace(s, b2):
+                    best = (b2, "!(" + cond + ")")
+    return best[1] if best else ""
+
+
+def scan_refs(path, rel, area):
+    src = open(path, encoding="utf8", errors="replace").read()
+    s0 = blank_noncode(src)
+    s1 = strip_test_items(s0)
+    refs = []
+    hits = []
+    for fac, rx in FACILITIES:
+        for m in rx.finditer(s0):
+            hits.append((m.start(), fac, re.sub(r"\s+", "", m.group(0)).rstrip("(")))
+    if not hits:
+        return refs
+    # item contexts: (start of body, end of body, kind, name) for fn / impl / trait / enum / struct / mod
+    items = []
+    for m in re.finditer(r"\b(fn|impl|trait|enum|struct|mod)\b", s0):
+        kw = m.group(1)
+        rest = s0[m.end():m.end() + 600]
+        if kw == "impl":
+            before = s0[:m.start()].rstrip()
+            if before and before[-1] not in "};{]" and not before.endswith("unsafe"):
+                continue
+            hdr = rest.split("{", 1)[0]
+            hdr = re.sub(r"\bwhere\b.*", "", hdr, flags=re.S)
+            t = hdr.strip()
+            if t.startswith("<"):
+                d, k = 0, 0
+                for k, ch in enumerate(t):
+                    if ch == "<":
+                        d += 1
+                    elif ch == ">":
+                        d -= 1
+                        if d == 0:
+                            break
+                t = t[k + 1:]
+            if re.search(r"\bfor\b", t):
+                t = re.split(r"\bfor\b", t)[-1]
+            mm = re.search(r"([A-Za-z_]\w*)\s*(?:<|$|\s)", t.strip())
+            name = mm.group(1) if mm else "?"
+        else:
+            mm = re.match(r"\s+([A-Za-z_]\w*)", rest)
+            if not mm:
+                continue
+            name = mm.group(1)
+        # body: first '{' before any ';' at bracket depth 0
+        j, d = m.end(), 0
+        while j < len(s0):
+            ch = s0[j]
+            if ch in "([":
+                d += 1
+            elif ch in ")]":
+                d -= 1
+            elif ch == "{" and d == 0:
+                break
+            elif ch == ";" and d == 0:
+                j = -1
+                break
+            j += 1
+        if j < 0 or j >= len(s0):
+            items.append((m.start(), m.end() + len(name) + 2, kw, name))     # declaration only: the header itself
+        else:
+            items.append((m.start(), match_brace(s0, j), kw, name))
+    for pos, fac, text in sorted(hits):
+        inside = [it for it in items if it[0] <= pos < it[1]]
+        fn = next((it for it in reversed(inside) if it[2] == "fn"), None)
+        ty = next((it for it in reversed(inside) if it[2] in ("impl", "trait", "enum", "struct")), None)
+        a = area
+        if a == "Src" and s1[pos] == " " and s0[pos] != " ":
+            a = "Test"
+        guard = enclosing_guard(s0, pos, fn[0]) if fn else ""
+        refs.append({"facility": fac, "text": text, "file": rel, "line": s0.count("\n", 0, pos) + 1, "area": a,
+                     "ty": ty[3] if ty else "", "fn": fn[3] if fn else "", "guard": guard})
+    return refs
+
+
+def workspace_ref_roots(repo):
+    """(directory, area) of every source directory of the workspace crates"""
+    crates = [repo, os.path.join(repo, "datasets")]
+    alg = os.path.join(repo, "algorithms")
+    crates += [os.path.join(alg, d) for d in sorted(os.listdir(alg)) if os.path.isdir(os.path.join(alg, d))]
+    out = []
+    for c in crates:
+        for sub, area in (("src", "Src"), ("tests", "Test"), ("examples", "Example"), ("benches", "Bench")):
+            p = os.path.join(c, sub)
+            if os.path.isdir(p):
+                out.append((p, area))
+    return out
+
+
 def coq_str(s):
     return '"' + s.replace('"', '""') + '"'
 
 
 def main():
     repo, out = sys.argv[1], sys.argv[2]
+    reach_json = sys.argv[3] if len(sys.argv) > 3 else None
     roots = [os.path.join(repo, "src")]
     alg = os.path.join(repo, "algorithms")
     for d in sorted(os.listdir(alg)):
@@ -239,6 +375,19 @@ def main():
                     a, b = scan_file(p, os.path.relpath(p, repo))
                     sites += a
                     psites += b
+    refs = []
+    nref_files = 0
+    for root, area in workspace_ref_roots(repo):
+        for d, dirs, fs in os.walk(root):
+            dirs[:] = sorted(dirs)
+            for f in sorted(fs):
+                if f.endswith(".rs"):
+                    p = os.path.join(d, f)
+                    nref_files += 1
+                    a = area
+                    if a == "Src" and (f in ("tests.rs", "test.rs") or os.sep + "tests" + os.sep in p[len(root):]):
+                        a = "Test"
+                    refs += scan_refs(p, os.path.relpath(p, repo), a)
     lines = []
     lines.append("(** GENERATED by tools/c20_seeds2coq.py from the Rust sources - do not edit.")
     lines.append("    Every RNG construction site of the non-test library code (%d files scanned). *)" % nfiles)
@@ -277,12 +426,28 @@ def main():
         coq_str(x["file"]), x["line"], coq_str(x["ty"]), coq_str(x["fn"]), coq_str(x["what"])) for x in psites))
     lines.append("].")
     lines.append("")
+    lines.append("(** every reference of the workspace crates (%d files: src, tests, examples, benches) to a facility the" % nref_files)
+    lines.append("    determinism claim excludes; r_guard = condition of the nearest enclosing `if` (empty when there is none) *)")
+    lines.append("Inductive area := Src | Test | Example | Bench.")
+    lines.append("Record fref := { r_facility : string; r_text : string; r_file : string; r_line : N; r_area : area;")
+    lines.append("                 r_type : string; r_fn : string; r_guard : string }.")
+    lines.append("")
+    lines.append("Definition facility_refs : list fref := [")
+    lines.append(";\n".join("  {| r_facility := %s; r_text := %s; r_file := %s; r_line := %d%%N; r_area := %s; r_type := %s; r_fn := %s; r_guard := %s |}" % (
+        coq_str(x["facility"]), coq_str(x["text"]), coq_str(x["file"]), x["line"], x["area"], coq_str(x["ty"]), coq_str(x["fn"]), coq_str(x["guard"])) for x in refs))
+    lines.append("].")
+    lines.append("")
+    if reach_json:
+        import json
+        os.makedirs(os.path.dirname(reach_json), exist_ok=True)
+        json.dump({"repo": repo, "refs": [x for x in refs if x["area"] == "Src"]}, open(reach_json, "w"), indent=1)
     open(out + ".tmp", "w").write("\n".join(lines) + "\n")
     if os.path.exists(out) and open(out).read() == open(out + ".tmp").read():
         os.remove(out + ".tmp")
     else:
         os.replace(out + ".tmp", out)
-    print("c20_seeds2coq: %d files, %d rng sites, %d parallel sites -> %s" % (nfiles, len(sites), len(psites), out))
+    print("c20_seeds2coq: %d files, %d rng sites, %d parallel sites, %d references to excluded facilities (%d in library code) -> %s" % (
+        nfiles, len(sites), len(psites), len(refs), sum(1 for x in refs if x["area"] == "Src"), out))
 
 
 if __name__ == "__main__":
